@@ -608,6 +608,14 @@ def _humanize(a, pre):
     p = P()
     x, y = pre
     en = a["entry"]
+    if en == "time_diff_for_humans":
+        # two times of day: the components are computed here from the fields, by plain integer arithmetic
+        us = abs(((y.hour - x.hour) * 60 + (y.minute - x.minute)) * 60 + (y.second - x.second)) * 10 ** 6 + 0
+        d_us = ((y.hour * 60 + y.minute) * 60 + y.second) * 10 ** 6 + y.microsecond - (((x.hour * 60 + x.minute) * 60 + x.second) * 10 ** 6 + x.microsecond)
+        sec = abs(d_us) // 10 ** 6
+        a["comps"] = [0, 0, 0, 0, sec // 3600, sec % 3600 // 60, sec % 60]
+        a["invert"] = d_us < 0
+        return x.diff_for_humans(y, absolute=a["absolute"], locale=a["locale"])
     iv_probe = p.Interval(x, y, absolute=True)
     a["comps"] = [abs(int(v)) for v in (iv_probe.years, iv_probe.months, iv_probe.weeks, iv_probe.remaining_days, iv_probe.hours,
                                          iv_probe.minutes, iv_probe.remaining_seconds)]
@@ -640,6 +648,23 @@ def _in_words(a, pre):
 
 
 # ---------------------------------------------------------------- C11
+class _HalfYearDst(_dt.tzinfo):
+    """a hand-written tzinfo: +01:00, +02:00 from April to September (utcoffset(None) is None, as for any DST zone)"""
+
+    def utcoffset(self, d):
+        if d is None:
+            return None
+        return _dt.timedelta(hours=2 if 4 <= d.month <= 9 else 1)
+
+    def dst(self, d):
+        if d is None:
+            return None
+        return _dt.timedelta(hours=1 if 4 <= d.month <= 9 else 0)
+
+    def tzname(self, d):
+        return "HYD"
+
+
 def _twin(x):
     """the native object with the same fields and tzinfo (zoneinfo / datetime.timezone), same fold"""
     import zoneinfo
@@ -751,6 +776,22 @@ def _native_acc(a, pre):
                     neq.append("fromtimestamp")
             except Exception as e:  # noqa: BLE001
                 neq.append("fromtimestamp:" + type(e).__name__)
+        if x.tzinfo is not None:
+            # astimezone(target) for targets of every kind: fields, offset, zone name and dst as the native object gives them
+            import zoneinfo
+
+            def akey(v):
+                return (v.year, v.month, v.day, v.hour, v.minute, v.second, v.microsecond, v.utcoffset(), v.tzname(), v.dst())
+
+            def fkey(v):
+                return (v.year, v.month, v.day, v.hour, v.minute, v.second, v.microsecond, v.utcoffset())
+
+            for nm, tz in (("utc", _dt.timezone.utc), ("est", _dt.timezone(_dt.timedelta(hours=-5), "EST")),
+                           ("odd", _dt.timezone(_dt.timedelta(hours=5, minutes=45))),
+                           ("zi-ny", zoneinfo.ZoneInfo("America/New_York")), ("zi-paris", zoneinfo.ZoneInfo("Europe/Paris")),
+                           ("zi-lh", zoneinfo.ZoneInfo("Australia/Lord_Howe")), ("p-chicago", p.timezone("America/Chicago"))):
+                same("astimezone-" + nm, lambda v, tz=tz: akey(v.astimezone(tz)))
+            same("astimezone-custom", lambda v: fkey(v.astimezone(_HalfYearDst())))
         d_, t_ = x.date(), x.time()
         res["date"] = [type(d_).__name__, [d_.year, d_.month, d_.day]]
         res["time"] = [type(t_).__name__, [t_.hour, t_.minute, t_.second, t_.microsecond]]
@@ -876,6 +917,19 @@ def _native_cmp(a, pre):
             res[key] = proj.td3(f())
         except Exception:  # noqa: BLE001
             res[key] = [0, 0, -3]
+    # which of the operations RAISE (naive against aware: TypeError for ordering and subtraction, == is False), pendulum
+    # operands, native operands and the mixtures
+    def errs(u, v):
+        out = []
+        for f in (lambda: u < v, lambda: u <= v, lambda: u > v, lambda: u >= v, lambda: u == v, lambda: u != v, lambda: u - v, lambda: v - u):
+            try:
+                f()
+                out.append("-")
+            except Exception as e:  # noqa: BLE001
+                out.append(type(e).__name__)
+        return out
+
+    res["err_pp"], res["err_nn"], res["err_pn"], res["err_np"] = errs(x, y), errs(tx, ty), errs(x, ty), errs(tx, y)
     return res
 
 
